@@ -142,6 +142,17 @@ class PlanJoinTSPredictorQuery:
         predictor_namespace, predictor = self.planner.get_predictor_namespace_and_name_from_identifier(join_right)
         table = join_left
 
+        if isinstance(table, Identifier) and query.where is not None:
+            # sub-selects of the conditions that can't run with the table are planned on their own:
+            #   the queries to the table's integration get their results
+            if self.planner.get_cte_result(table) is not None:
+                main_integration = None
+            else:
+                main_integration, _ = self.planner.resolve_database_table(table)
+            is_api_db = self.planner.integrations.get(main_integration, {}).get('class_type') == 'api'
+            find_selects = self.planner.get_nested_selects_plan_fnc(main_integration, force=is_api_db)
+            query_traversal(query.where, find_selects)
+
         aliased_fields = self.get_aliased_fields(query.targets)
 
         recursively_check_join_identifiers_for_ambiguity(query.where)
